@@ -76,5 +76,23 @@ def search (d : Dir) (aic : List Nat → Option F) (p : Nat) : Option (Result F)
   | none => none
   | some a0 => some (loop d aic (p + 1) (startCols d p) a0 (List.range p) [])
 
+/-- the same loop with the three pieces of column bookkeeping supplied from outside — the alternatives examined from the
+    current model, the `break` test at the top of a pass, and the update of the selectable columns after an accepted
+    step (`Model/StepwiseGen.lean` plugs in the definitions regenerated from `StepwiseSL.fit`) -/
+def loopWith (stepsF : List Nat → List Nat → List (List Nat)) (breakF : List Nat → Bool)
+    (availF : List Nat → List Nat → List Nat) (aic : List Nat → Option F) :
+    Nat → List Nat → F → List Nat → List (List Nat) → Result F
+  | 0, cols, a, _, vis => ⟨cols, a, vis, false⟩
+  | fuel + 1, cols, a, avail, vis =>
+    if breakF cols then ⟨cols, a, vis, true⟩
+    else
+      let alts := stepsF cols avail
+      match bestAlt aic alts none with
+      | none => ⟨cols, a, vis ++ alts, true⟩
+      | some (bc, ba) =>
+        if ba ≤ a then
+          loopWith stepsF breakF availF aic fuel bc ba (availF avail bc) (vis ++ alts)
+        else ⟨cols, a, vis ++ alts, true⟩
+
 end
 end ZV.Stepwise
